@@ -1,16 +1,41 @@
-//! Suite C09 (stub — replaced when the property's harness is built).
+//! Suite C09: every transmission uses an enabled in-band channel, a legal data rate and power.
 #![allow(dead_code, unused_imports)]
+use crate::mac::*;
+use crate::macgen::*;
+use crate::macsuites::*;
 use crate::util::*;
 
-pub fn eval(_op: &str) -> String {
-    "bad-op".into()
+pub fn eval(op: &str) -> String {
+    let outs = run_history(op);
+    format!("{} ## oracle={}", outs.join(" ; "), oracle_c09_c10(op, &outs, true, false))
 }
 
 pub fn expand(_op: &str) -> Vec<String> {
     vec![]
 }
 
-pub fn run(_tier: &str, _seed: u64, dir: &str) {
-    let sink = Sink::new(dir);
-    sink.finish(dir, "stub", false, serde_json::json!({}));
+pub fn run(tier: &str, seed: u64, dir: &str) {
+    let mut rng = Rng::new(seed);
+    let mut sink = Sink::new(dir);
+    let thorough = tier == "thorough";
+    let per_region = if thorough { 3000 } else { 170 };
+    for region in REGIONS {
+        for i in 0..per_region {
+            let mut o = Opts::default();
+            o.steps = 5 + rng.below(10) as usize;
+            o.otaa_pct = 40;
+            o.snaps = true;
+            o.rejected = i % 4 == 0;
+            let op = gen_history("C09", &mut rng, region, &o);
+            sink.case(&op, &eval(&op), "plan-history", true);
+        }
+        // every outcome of the first channel draw for a fixed state (the harness owns the RNG)
+        for forced in 0..(if thorough { 64u32 } else { 16 }) {
+            let mut h = Hist::new("C09", region, 20, 2, 99, &[forced, forced.wrapping_mul(2654435761)], None);
+            h.abp().snap().send(1, false, &[1]).timeout().snap();
+            let op = h.done();
+            sink.case(&op, &eval(&op), "forced-draws", true);
+        }
+    }
+    sink.finish(dir, "MAC histories with OTAA joins (CFLists), LinkADRReq / NewChannelReq / DlChannelReq downlinks, ADR back-off, application data-rate changes, join bias, antenna gains {0,2,-3,6} and board powers {2,14,20,30}; a state snapshot follows every step so that each TxConfig is judged against the plan in force; forced RNG draws enumerate channel choices of the initial state. Non-trivial = every case.", false, serde_json::json!({}));
 }
